@@ -1,3 +1,4 @@
+pub mod gen_msg;
 pub mod gz;
 pub mod lp;
 pub mod mps;
